@@ -593,7 +593,8 @@ let () =
      while true do
        let line = input_line ic in
        output_string oc (run_case line);
-       output_char oc '\n'
+       output_char oc '\n';
+       flush oc
      done
    with End_of_file -> ());
   close_out oc
